@@ -13,7 +13,8 @@ RULE = ("Hypothesis builds programs of 1-40 statements from 8-integer prototypes
         "label+-k,PCR, n,PCR, short and long branches, register lists and pairs), FCB/FDB/FCC/RMB of varying lengths, "
         "EQU (before or after use), NAM, SETDP, END; labels on any statement, forward and backward references through "
         "EQU symbols, labels and label+-n; origin from a boundary list or arbitrary, or no ORG at all. Negative "
-        "variants: a duplicated label, an undefined symbol, a second ORG / code before ORG. A second search feeds "
+        "variants: a duplicated label, an undefined symbol, a second ORG / code before ORG, a further ORG naming "
+        "exactly the current location (rejected, or nothing - the reported origin included - changes). A second search feeds "
         "the same kind of program through INCLUDE: a block of its label-free self-contained statements is spliced in "
         "two or three times from one file (side by side or through a wrapper file) and a stretch of the text is moved "
         "into a further file; the walk judges the flat program. Oracle: independent layout "
@@ -31,7 +32,7 @@ HEALTH = {"accepted": 0.2, "nontrivial_layout": 0.12, "negative": 0.02, "through
 EXHAUSTIVE = {"quick": ["every third program of the C03 label,PCR distance families (single, spanning, crossing), judged by the layout walk"],
               "thorough": ["all programs of the C03 label,PCR distance families, judged by the layout walk"]}
 
-_neg = st.sampled_from(["dup_label", "undef_symbol", "second_org", "code_before_org"])
+_neg = st.sampled_from(["dup_label", "undef_symbol", "second_org", "code_before_org", "org_here", "org_here"])
 _case = st.one_of(
     st.fixed_dictionaries(dict(prog=proggen.program)),
     st.fixed_dictionaries(dict(prog=proggen.program)),
@@ -156,6 +157,20 @@ def apply_negative(case):
         pos = body[case["at"] % len(body)] + 1          # right after some byte-emitting statement (instruction or data)
         stmts.insert(pos, {"lab": "", "k": "org", "addr": (prog["org"] + 0x1000 + case["at2"] * 16) % 0xE000})
         return prog, neg
+    if neg == "org_here":
+        # a further ORG whose operand is exactly the current location: nothing moves, so the program may be accepted -
+        # and then everything, the reported origin included, must still be as without it
+        body = [i for i, s in enumerate(stmts) if proggen.size_bounds(s)[0] > 0]
+        if len(body) < 1:
+            return prog, None
+        pos = body[case["at"] % len(body)] + 1
+        if pos >= len(stmts) or stmts[-1]["k"] == "end" and pos >= len(stmts) - 1:
+            return prog, None
+        base = driver.assemble(proggen.render(prog))
+        if base.kind != "OK" or base.rows[pos][0] is None or stmts[pos]["k"] in ("equ", "nam", "setdp", "end", "org"):
+            return prog, None
+        stmts.insert(pos, {"lab": "", "k": "org", "addr": base.rows[pos][0]})
+        return prog, neg
     if neg == "code_before_org":
         if prog["org"] is None or prog["org"] == 0:
             return prog, None
@@ -208,11 +223,23 @@ def execute(case):
             return ok(labels=labels + ["rejected", "flat_rejected_too"])
     if out.kind == "DIAG":
         labels.append("rejected")
-        if neg in ("second_org", "code_before_org"):
+        if neg in ("second_org", "code_before_org", "org_here"):
             return ok(labels=labels, nontrivial=True)
         return viol("valid program rejected ({}): {!r}".format(out.message, [l.strip() for l in lines][:16]),
                     fid="C02:rejected:" + (out.message or "")[:30], labels=labels)
     labels.append("accepted")
+    if neg == "org_here":
+        origin = out.origin if out.origin is not None else 0
+        first = next((r[0] for r, s in zip(out.rows, stmts) if proggen.size_bounds(s)[1] > 0 and r[1]), None)
+        if first is not None and first != origin:
+            return viol("ORG at the current location accepted, but the reported origin ${:04X} is not where the first byte "
+                        "is listed (${:04X}): {!r}".format(origin, first, [l.strip() for l in lines][:14]),
+                        fid="C02:org_here-origin", labels=labels)
+        base = driver.assemble(proggen.render(case["prog"]))
+        if base.kind == "OK" and (base.image != out.image or dict(base.symbols) != dict(out.symbols)):
+            return viol("ORG at the current location changed the image or the symbols: {!r}".format([l.strip() for l in lines][:14]),
+                        fid="C02:org_here-changed", labels=labels)
+        return ok(labels=labels, nontrivial=True)
     if neg in ("second_org", "code_before_org"):
         # accepted: the image loaded at the reported origin must put every row at its listed address
         origin = out.origin if out.origin is not None else 0
